@@ -370,7 +370,65 @@ class MwOnlyProj:
         return None
 
 
+def cli_extra(run):
+    """C20: black-box runs of the built binary, diffed against `kpmodel cli`"""
+    import random, subprocess, hashlib
+    from checklib import cli_engine
+    from checklib.common import KPMODEL
+    ok, log = cli_engine.build_binary()
+    if not ok:
+        rp = run.write_replay('cli-build', {'property': run.pid, 'broken': 'cmd/kamal-proxy does not build', 'log': log[-2000:]})
+        run.violations.append(('the kamal-proxy binary does not build', rp, False))
+        return None
+    rng = random.Random(run.seed)
+    ops, impl, notes = [], [], []
+    for part in (cli_engine.env_matrix, cli_engine.prerun_matrix):
+        o, i = part(rng, run.tier)
+        ops += o
+        impl += i
+    o, i, n = cli_engine.live_proxy(rng, run.tier)
+    ops += o
+    impl += i
+    run.notes += n
+    opsf = os.path.join(run.tmp, 'cli.ops')
+    open(opsf, 'w').write('\n'.join(ops) + '\n')
+    p = subprocess.run([KPMODEL, 'cli'], stdin=open(opsf, 'rb'), stdout=subprocess.PIPE, stderr=subprocess.PIPE, timeout=300)
+    model = p.stdout.decode().split('\n')
+    kinds, nontriv = {}, set()
+    shown = 0
+    for k, (op, a) in enumerate(zip(ops, impl)):
+        b = model[k] if k < len(model) else '<missing>'
+        kind = op.split(' ')[0] if not op.startswith('#') else 'exit'
+        kinds[kind] = kinds.get(kind, 0) + 1
+        if 'pref=-' not in op or kind in ('prerun', 'list', 'exit'):
+            nontriv.add(hashlib.sha1(op.encode()).hexdigest())
+        if a != b and shown < 3:
+            shown += 1
+            rp = run.write_replay(f'cli-{shown}', {'property': run.pid, 'engine': 'cli', 'op': op, 'implementation': a, 'model': b,
+                                                   'note': 'run the binary built from /repo with the flags/environment encoded in op (bytes are hex after x)'})
+            run.violations.append(('engine cli: the binary and the model differ', rp, True))
+    n = len(ops) or 1
+    return (dict(engine='cli'), dict(cases=len(ops), compared=len(ops), nontrivial=nontriv, kinds=kinds, files=1,
+                                     samples=[{'engine': 'cli', 'ops': ops[:3] + ops[n // 2:n // 2 + 2] + ops[-2:]}]))
+
+
+import os
+
+
 PROPS = {
+    'C20': dict(
+        engines=[], extra=cli_extra,
+        rule="engine cli (the binary built from /repo's working tree, black box): (1) for --http-port, --https-port, --debug every pair "
+             "(prefixed variable, bare variable) over {absent, 4-6 valid spellings, 5-7 malformed spellings incl. empty} observed through "
+             "the defaults `run --help` prints (all pairs in the thorough tier, all pairs with one side absent plus a 35% sample otherwise "
+             "in quick), plus explicit flags on really started servers; (2) deploy validation: tls x host lists x prefix lists x "
+             "max-request-body x buffer-requests (absent/true/=false) x max-response-body x buffer-responses against a unix socket that "
+             "counts connections (140 sampled combinations in quick, all 1440 in thorough); (3) a real `kamal-proxy run` with python HTTP "
+             "targets on loopback: exit code of every client command for every proxy-side outcome, and `list`/`ls` output byte for byte. "
+             "Non-trivial = an op that is not the all-defaults case.",
+        assumptions=["cobra/pflag flag parsing and process exit are runtime behaviour tied by these runs only",
+                     "strconv.Atoi / ParseBool are modelled"],
+    ),
     'C13': dict(
         engines=[engine('rewrite', lambda: AllProj(lambda k, op, b: not b.endswith('404') and 'parse-error' not in b), 60, 6000),
                  engine('buffer', MwOnlyProj, 40, 2000)],
